@@ -191,6 +191,8 @@ def pand_many(ps):
         return ZERO
     if not ps:
         return ONE
+    if len(ps) == 1:
+        return ps[0]
     est = 1
     for p in ps:
         est *= len(p)
